@@ -166,6 +166,7 @@ static int connectionStateListener(TcpAsyncCtx *tcpCtx, int state) {
 
 static void closeSocket(TcpAsyncCtx *tcpCtx, unsigned int lineNr) {
 	if (tcpCtx != NULL) {
+		KSI_AsyncHandle *req = NULL;
 
 		KSI_LOG_debug(tcpCtx->ctx, "[%p] Async TCP close socket at: L%u", tcpCtx, lineNr);
 
@@ -177,6 +178,8 @@ static void closeSocket(TcpAsyncCtx *tcpCtx, unsigned int lineNr) {
 		tcpCtx->socketReady = false;
 		/* Clear input buffer. */
 		tcpCtx->inLen = 0;
+		/* A partially written request can not be continued on another connection, it has to be sent again as a whole. */
+		if (KSI_AsyncHandleList_elementAt(tcpCtx->reqQueue, 0, &req) == KSI_OK && req != NULL) req->sentCount = 0;
 	}
 }
 
